@@ -33,6 +33,14 @@ func main() {
 	explain := flag.String("explain", "", "print a violations file")
 	list := flag.Bool("list", false, "list properties")
 	flag.Parse()
+	// /repo needs go >= 1.25 while the sandbox's default go is older: put the
+	// pre-installed newer toolchain first on PATH for the `go list` that
+	// go/packages runs.
+	if st, err := os.Stat("/opt/veriftools/go1.26.8/bin"); err == nil && st.IsDir() {
+		os.Setenv("PATH", "/opt/veriftools/go1.26.8/bin:"+os.Getenv("PATH"))
+	}
+	os.Setenv("GOTOOLCHAIN", "local")
+	os.Unsetenv("GOWORK")
 
 	if *list {
 		ids := []string{}
